@@ -224,6 +224,9 @@ def gen_case(rng, thorough: bool):
         count = first + rng.randrange(0, 3 * len(numbers) + 2)
     else:
         count = rng.choice([509, 510, 511]) + first
+    count = min(count, 10000)      # H (HTTP level): count > 10000 is refused with 400 (fix 8c4223f)
+    if 0 < count <= first:
+        count = 0
     s = dict(start=start, interval=interval, count=count, duration=rng.choice([200, 0, ts]), timescale=ts,
              version=1 if event == "scte35" else rng.choice([0, 1]), inband=True)
     if event == "scte35":
